@@ -501,3 +501,5 @@ _quick("C04", "C17_zerowaiter", "(also under C17) a holder and 1..2 queued reque
 _quick("C08", "C16_staletmp", "(also under C16) a compaction that died after writing rewrite.aof.tmp and its value file (the process stopped at that instant), a restart, the next compaction, another restart: the holds come back with their own values (a value file left behind by the interrupted compaction is not appended to)", ["-witness", "1"], reach=["end"])
 
 _quick("C07", "C08_valappend", "(also under C08) a log of valued records, restart, one more valued record persisted, second restart: every persisted hold comes back with its own value (a restart must not damage the value file it reopens for appending)", ["-witness", "4"])
+
+_quick("C06", "C06_race", "a hold with E = 3 s; in the deadline tick, right before the k-th acquisition of the key's mutex (k = 1..4, vfLockHook) its holder's re-entrant re-lock, or an update with a changed Count, comes in and is answered as a success: the period has restarted — the hold is still there after the tick, draws no EXPRIED before E has passed again, and ends by E + 2 s after the renewal", [], reach=["renewed-in-the-deadline-tick"], native=False)
